@@ -197,6 +197,34 @@ func fixedBehaviours() []fixedBehaviour {
 			block(chain.AbsTx{Ver: 1, Rev: []chain.AbsRev{{Cid: fc1, C: c1JSON(3, 5, 1, 24), Auth: "ok"}}, Tag: "rev1"},
 				chain.AbsTx{Ver: 1, Res: []chain.AbsRes{{Cid: fc1, Kind: "proof", Pf: "ok", Ren: noRen}}, Tag: "prove1"}),
 		}},
+		// ---- histories: an element is spent, the holders refresh it with the update that spent it, the next block rewrites
+		// its proof in place; the block is reverted (the holders refresh the restored element with the RevertUpdate) and
+		// another block rewrites that proof in place (holders.go; OwnershipMC: refresh-adopt, then a refresh in place) ----
+		{"v1-spend-next-revert-other", "v1only", []chain.Step{
+			block(chain.AbsTx{Ver: 1, Sci: in(sc(1)), Sco: []chain.AbsOut{{Val: 599, Addr: "B"}, {Val: 599391, Addr: "A"}}, Fee: 10, Tag: "pay"}),
+			block(chain.AbsTx{Ver: 1, Sci: in(sc(2)), Sco: []chain.AbsOut{{Val: 599, Addr: "A"}, {Val: 255812, Addr: "B"}}, Tag: "pay"}),
+			{Op: "revert"},
+			block(chain.AbsTx{Ver: 1, Sci: in(sc(3)), Sco: []chain.AbsOut{{Val: 1199, Addr: "A"}}, Tag: "pay"}),
+			block(sfTx(1)),
+		}},
+		{"v2-spend-next-revert-other", "v2only", []chain.Step{
+			block(chain.AbsTx{Ver: 2, Sci: in(sc(1)), Sco: []chain.AbsOut{{Val: 599, Addr: "B"}, {Val: 599401, Addr: "A"}}, Tag: "pay"}),
+			block(chain.AbsTx{Ver: 2, Sci: in(sc(2)), Sco: []chain.AbsOut{{Val: 599, Addr: "A"}, {Val: 255812, Addr: "B"}}, Tag: "pay"}),
+			{Op: "revert"},
+			block(chain.AbsTx{Ver: 2, Sci: in(sc(3)), Sco: []chain.AbsOut{{Val: 1199, Addr: "A"}}, Tag: "pay"}),
+			block(sfTx(2)),
+		}},
+		// a block with a storage proof is applied, reverted and applied again: its updates all hold the block's resolution
+		// object (information only; not memory of an update)
+		{"v2-proof-revert-proof-again", "v2only", []chain.Step{
+			block(form2(2, 4)),
+			block(chain.AbsTx{Ver: 2, Rev: []chain.AbsRev{{Cid: fc2, C: c2JSON(250000, 49, "A", 0, 12, 2, 4, 1), Auth: "ok"}}, Tag: "rev2"}),
+			block(chain.AbsTx{Ver: 2, Res: []chain.AbsRes{{Cid: fc2, Kind: "proof", Pf: "ok", Ren: noRen}}, Tag: "proof"}),
+			{Op: "revert"},
+			block(chain.AbsTx{Ver: 2, Res: []chain.AbsRes{{Cid: fc2, Kind: "proof", Pf: "ok", Ren: noRen}}, Tag: "proof"},
+				chain.AbsTx{Ver: 2, Sci: in(sc(2)), Sco: []chain.AbsOut{{Val: 599, Addr: "A"}, {Val: 255812, Addr: "B"}}, Tag: "pay"}),
+			block(),
+		}},
 		{"v1-contract", "v1only", []chain.Step{
 			block(chain.AbsTx{Ver: 1, Sci: in(sc(2)), Fc: []json.RawMessage{c1JSON(3, 5, 0, 0)}, Tag: "form1"},
 				chain.AbsTx{Ver: 1, Sci: in(sc(1)), Sco: []chain.AbsOut{{Val: 599, Addr: "B"}, {Val: 599391, Addr: "A"}}, Fee: 10, Tag: "pay"}),
